@@ -103,6 +103,24 @@ CLAIMED = {
              "module tables are the independent copy. One fix: commit in /repo (digit limit). One known finding.",
         technique="Coq proof (generic induction over the scan loop, lia range analysis, vm_compute table equality) + "
                   "translated tables + differential correspondence on the real tokenizer"),
+    "C16": dict(
+        category="proof",
+        text="Static facts regenerated from the source on every run: all ~230 places that raise a parse error "
+             "(parser, tokenizer, input stream; code + supplied variables, non-literal sites fail closed), the message "
+             "table with the variables of each template, where `strict` is read. Theorems: every site's code is a key "
+             "of E and every template variable is supplied (vm_compute; find_cex names the failing site); strict is "
+             "read only in parseError; over the model of parseError, for EVERY call sequence strict raises iff the "
+             "non-strict run records an error, the raised error is the first recorded, recorded before raised, and "
+             "is ParseError (never KeyError) for calls from source sites. The parseError model is tied by "
+             "correspondence; inputs (every prefix of a tag/doctype/comment family, generated markup, truncations) are "
+             "parsed strict and non-strict on the real parser and compared (exception type, first error, message, "
+             "formatting of all recorded errors, positions inside the input). 'Conforming documents record no errors' "
+             "is not decided here (search-only, with C07).",
+        design_ref="DESIGN.md 3 C16",
+        note="The frame argument (nothing but the raise depends on strict) is a syntactic fact about attribute "
+             "reads; Python %-formatting modelled by format_ok.",
+        technique="Coq proof over translator-extracted static facts (vm_compute) + small model of parseError + "
+                  "differential strict/non-strict run of the real parser"),
 }
 
 PENDING_REASON = "not yet built in this round (planned: Coq model + theorems per DESIGN.md section 3); no check is registered, so nothing is claimed"
